@@ -5,6 +5,6 @@ CONSTANTS
   Mode = "keys"
   Original = FALSE
   MaxPerBigClass = 0
-  ManyBases = FALSE
+  ManyBases = TRUE
 INVARIANTS EstimateCoversStorage
 CHECK_DEADLOCK FALSE
